@@ -2520,7 +2520,10 @@ class BDD(dd._abc.BDD[_Ref]):
             v, succ, umap, level_map)
         q = self._load(
             w, succ, umap, level_map)
-        r = self.find_or_add(j, p, q)
+        # the variables can be ordered
+        # differently in `self` than in the file
+        g = self.find_or_add(j, -1, 1)
+        r = self.ite(g, q, p)
         if r <= 0:
             raise AssertionError(r)
         umap[abs(u)] = r
